@@ -35,6 +35,15 @@ def run(ctx, model_ok):
         ns.add(rng.getrandbits(rng.randint(1, 64)))
     for e in range(1, 26):
         ns.add(10**e)
+    # hexadecimal digit strings that CONTAIN a digit followed by a currency code made of hex letters (2bbd, 7cdf, 1aed, 3bad ...):
+    # the money reader runs before the number reader
+    cfgj = C.json.load(open(C.REPO + "/src/json/config.json", encoding="utf-8"))
+    hexcodes = sorted(c for c in cfgj["currencies"] if all(ch in "ABCDEF" for ch in c.upper()))
+    for code in hexcodes:
+        for _ in range(ctx.n(2, 12)):
+            pre = "".join(rng.choice("0123456789abcdef") for _ in range(rng.randint(0, 4))) or "1"
+            post = "".join(rng.choice("0123456789abcdef") for _ in range(rng.randint(0, 4)))
+            ns.add(int((pre.lstrip("0") or "1") + rng.choice("0123456789") + code + post, 16))
     ns = sorted(ns)
     cases = []
     for n in ns:
